@@ -230,6 +230,7 @@ def schedules(ctx, model_ok, tmp):
     rng = ctx.rng
     template, ids = build_template(tmp)
     registration_races(ctx, tmp, template)
+    begin_boundary_races(ctx, tmp, template, ids)
     req, impl = [], []
 
     def viol(what, key, replay):
@@ -477,6 +478,135 @@ def registration_races(ctx, tmp, template):
             viol(f"registration race {name} (B inside A's {'lookup-to-insert' if where == 'sync' else 'refresh-to-lock'} window): outcomes A={out_a} B={out_b[0]}, "
                  f"afterwards {got[2][:160]}; sequential orders give {sorted(seq)}"[:900], f"c20:race:{name}", {"kind": "race", "scenario": name, "got": list(got)})
         shutil.rmtree(root, ignore_errors=True)
+
+
+def begin_boundary_races(ctx, tmp, template, ids):
+    """Registry-level operations of two clients on the same objects, with client B's whole operation injected before every
+    database transaction client A's operation starts (every BEGIN its connection issues — A holds no lock there).  This
+    enumerates all interleavings at transaction granularity, whatever number of transactions an operation turns out to use;
+    each outcome (who succeeded, final state) must be one that a sequential order gives.  It is also what checks the
+    assumption that chain edits, associations and registrations are single atomic steps."""
+    import sqlalchemy
+    from lsst.daf.butler import Butler
+    from lsst.daf.butler.registry import ConflictingDefinitionError
+
+    rng = ctx.rng
+
+    def viol(what, key, replay):
+        ctx.violations.append(core.Violation(what=what, key=key, replay=replay))
+
+    classes = {}
+
+    def call(op, b, R):
+        # outcomes are compared as accepted / refused (which exception class a refusal uses depends on where the conflict is
+        # noticed and is recorded only for the report)
+        try:
+            op(b, R)
+            return "ok"
+        except Exception as e:
+            classes[type(e).__name__] = classes.get(type(e).__name__, 0) + 1
+            return "refused"
+
+    def resolve(b):
+        """the refs the operations name, looked up before the operation under test starts"""
+        return {"x1": b.get_dataset(ids["x1"]), "x2": b.get_dataset(ids["x2"]), "z1": b.find_dataset("dt", instrument="I", detector=1, collections="r2")}
+
+    OPS = {
+        "extend(ch,r2)": lambda b, R: b.collections.extend_chain("ch", ["r2"]),
+        "prepend(ch,r2)": lambda b, R: b.collections.prepend_chain("ch", ["r2"]),
+        "prepend(ch,r3)": lambda b, R: b.collections.prepend_chain("ch", ["r3"]),
+        "extend(ch,r1)": lambda b, R: b.collections.extend_chain("ch", ["r1"]),   # moves r1 to the end
+        "remove(ch,r1)": lambda b, R: b.collections.remove_from_chain("ch", ["r1"]),
+        "redefine(ch,[r3,r2])": lambda b, R: b.collections.redefine_chain("ch", ["r3", "r2"]),
+        "assoc(tg,x1)": lambda b, R: b.registry.associate("tg", [R["x1"]]),
+        "assoc(tg,z1)": lambda b, R: b.registry.associate("tg", [R["z1"]]),
+        "assoc(tg,x2)": lambda b, R: b.registry.associate("tg", [R["x2"]]),
+        "disassoc(tg,x1)": lambda b, R: b.registry.disassociate("tg", [R["x1"]]),
+        "purge(x1)": lambda b, R: b.pruneDatasets([R["x1"]], purge=True, unstore=True, disassociate=True),
+        "removeRuns(r2)": lambda b, R: b.removeRuns(["r2"], unstore=True),
+        "registerRun(r4)": lambda b, R: b.registry.registerRun("r4"),
+        "put(r2,2)": lambda b, R: b.put({"who": "late"}, "dt", instrument="I", detector=2, run="r2"),
+    }
+    chain_ops = ["extend(ch,r2)", "prepend(ch,r2)", "prepend(ch,r3)", "extend(ch,r1)", "remove(ch,r1)", "redefine(ch,[r3,r2])"]
+    always = [("prepend(ch,r3)", "prepend(ch,r2)"), ("redefine(ch,[r3,r2])", "extend(ch,r2)"), ("extend(ch,r1)", "extend(ch,r2)"), ("remove(ch,r1)", "prepend(ch,r3)"),
+              ("assoc(tg,x1)", "assoc(tg,z1)"), ("assoc(tg,z1)", "assoc(tg,x1)"), ("assoc(tg,x1)", "purge(x1)"), ("removeRuns(r2)", "extend(ch,r2)")]
+    others = [(a, b_) for a in OPS for b_ in OPS if a != b_ and (a, b_) not in always]
+    rng.shuffle(others)
+    pairs = always + (others[:6] if ctx.quick() else others)
+
+    def fresh(tag):
+        root = os.path.join(tmp, tag)
+        shutil.rmtree(root, ignore_errors=True)
+        shutil.copytree(template, root)
+        admin = Butler.from_config(root, writeable=True, run="r1")
+        admin.registry.registerRun("r3")
+        admin.collections.redefine_chain("ch", ["r1", "r3"])
+        admin.put({"who": "z1"}, "dt", instrument="I", detector=1, run="r2")
+        del admin
+        return root
+
+    txn_counts = {}
+    for a_name, b_name in pairs:
+        op_a, op_b = OPS[a_name], OPS[b_name]
+        serial = {}
+        for order in ("AB", "BA"):
+            root = fresh("bseq")
+            A, B = Butler.from_config(root, writeable=True, run="r1"), Butler.from_config(root, writeable=True, run="r1")
+            outs = {}
+            RA, RB = resolve(A), resolve(B)
+            for c in order:
+                outs[c] = call(op_a, A, RA) if c == "A" else call(op_b, B, RB)
+            del A, B
+            serial[(outs["A"], outs["B"], canon(observe(root)))] = order
+            if {a_name, b_name} == {"assoc(tg,x1)", "assoc(tg,z1)"} and sorted(outs.values()) != ["ok", "refused"]:
+                # two datasets of one dataset type and data ID cannot both be members of a TAGGED collection: whichever comes second is refused
+                viol(f"{a_name} and {b_name} in the order {order}: outcomes {outs}; exactly one of two conflicting associations can be accepted",
+                     f"c20:conflicting-assoc:{order}", {"kind": "begin-boundary", "A": a_name, "B": b_name, "order": order})
+        for k in range(1, 40):
+            root = fresh("bpar")
+            A, B = Butler.from_config(root, writeable=True, run="r1"), Butler.from_config(root, writeable=True, run="r1")
+            # let both clients load what they cache at start-up, so that A's operation begins with its own statements
+            A.registry.refresh(), B.registry.refresh()
+            RA, RB = resolve(A), resolve(B)
+            state = {"count": 0, "fired": False, "res_b": None, "active": True}
+
+            def before_execute(conn, cursor, statement, parameters, context, executemany, state=state, B=B, op_b=op_b, k=k, RB=RB):
+                if not state["active"] or not statement.lstrip().upper().startswith("BEGIN"):
+                    return
+                n = state["count"]
+                state["count"] += 1
+                if n == k:
+                    state["active"] = False
+                    state["fired"] = True
+                    state["res_b"] = call(op_b, B, RB)
+                    state["active"] = True
+
+            engine = A._registry._db._engine
+            sqlalchemy.event.listen(engine, "before_cursor_execute", before_execute)
+            try:
+                ra = call(op_a, A, RA)
+            finally:
+                state["active"] = False
+                sqlalchemy.event.remove(engine, "before_cursor_execute", before_execute)
+            txn_counts[a_name] = max(txn_counts.get(a_name, 0), state["count"])
+            if not state["fired"]:
+                del A, B
+                break  # A starts no more than k transactions: every boundary has been used
+            del A, B
+            got = (ra, state["res_b"], canon(observe(root)))
+            ctx.evaluations += 1
+            ctx.count("begin-boundary-interleavings")
+            ctx.nontrivial.add(("begin", a_name, b_name, k))
+            if got not in serial:
+                st = observe(root)
+                viol(f"A={a_name} with B={b_name} injected before A's transaction #{k}: outcomes A={ra} B={state['res_b']}, chain {st['chain']}, tags {st['tags']}, "
+                     f"slots {sorted(st['slots'].items())}; no sequential order gives this (A;B and B;A give outcomes {sorted((x[0], x[1]) for x in serial)})"[:900],
+                     f"c20:begin:{a_name}:{b_name}:{k}", {"kind": "begin-boundary", "A": a_name, "B": b_name, "transaction": k})
+        ctx.count("begin-boundary-pairs")
+    ctx.extra["transactions_per_operation"] = txn_counts
+    ctx.extra["refusal_classes_seen"] = classes
+    for tag in ("bseq", "bpar"):
+        shutil.rmtree(os.path.join(tmp, tag), ignore_errors=True)
 
 
 def replay(ctx, content):
